@@ -102,7 +102,7 @@ Proof.
   - unfold at_node. cbn [nth_error]. unfold G. rewrite H0. apply unrolled_cmd_perm.
     + inversion SB; assumption.
     + apply Hfuel. now left.
-  - rewrite (Permutation_flat_map _ Lst) by reflexivity || idtac.
+  - rewrite (Permutation_flat_map _ Lst).
     rewrite <- seq_shift, flat_map_concat_map, map_map, <- flat_map_concat_map.
     rewrite (flat_map_ext _ (at_node ns' G)) by (intros i; apply at_node_cons_S).
     rewrite <- Hlen, flat_map_at_node_seq.
